@@ -603,10 +603,12 @@ theorem c15_span_base_failure_witness :
     spanCallbackProcess (fun b : Nat => if b = 2 then some Py.Exn.exc else none) [1, 2, 3] = ([1, 2, 3], false) := by
   decide
 
-/-- **down to the span** (partial: `close()` fails with an `Exception` at most) — a completed context (`Eff.closed c ev`:
-    `CallbackContext.process` ran) whose callbacks are span callbacks (one list of spans per span action; a callback
-    lets an exception out only if a `close()` raised a BaseException): every callback is processed and every span of
-    every callback is closed exactly once, whichever of them fail. -/
+/-- model lemma: **down to the span** (glue only: under the hypothesis the callback failure function below is constantly `none`,
+    so this is `c15_failed_callback_isolated_partial` + `c15_spans_closed_once_partial` side by side) — IF the callbacks
+    of a context are span callbacks given as their span lists `cbs` (the model's `Ctx.cbs` are `Action`s: which spans an
+    action created is not in the model, so `Eff.closed c ev` is NOT linked to these lists by a theorem), and `close()`
+    fails with an `Exception` at most, then `CallbackContext.process` over them calls every callback and every callback
+    closes every one of its spans once. -/
 theorem c15_every_span_closed_partial {σ : Type} (fails : σ → Option Py.Exn)
     (hexc : ∀ s, fails s ≠ some Py.Exn.base) (cbs : List (List σ)) :
     contextProcess (fun cb => if (spanCallbackProcess fails cb).2 then some Py.Exn.base else none) cbs = (cbs, false) ∧
@@ -617,14 +619,16 @@ theorem c15_every_span_closed_partial {σ : Type} (fails : σ → Option Py.Exn)
   rw [c15_spans_closed_once_partial fails hexc cb]
   simp
 
-/-- **a method capture attaches the result** — a deferred capture opened at a `call` event is completed at an event at
-    which the translated guard of `DeferredSnapshotActionCallback.process` attaches the event's `arg` (the value returned
-    / the exception raised) before the snapshot is pushed — for every stream, no hypothesis; a capture opened at a
-    `line` event and completed at the next `line` event attaches nothing (there is no result). -/
+/-- tripwire: **the attach guard** — (1) the translated guard of `DeferredSnapshotActionCallback.process` attaches the completing
+    event's `arg` exactly at `exception` and `return` events; (2) a context opened at a `call` event is only ever
+    completed at such an event (`c15_capture_kind`), so a deferred METHOD capture always passes the guard.  (A deferred
+    LINE capture completes at the next own `line` event — guard false, nothing attached — or, on a function's last
+    line, at the `return` / `exception` event — guard true, the result is attached.)  WHICH value is attached is
+    `c15_capture_value_partial` / `c15_capture_value_weak_partial`, not this. -/
 theorem c15_capture_attaches (cfg : List Trig) (s : List Ctx) (ev : Event) (c : Ctx) (e : Event)
     (h : Eff.closed c e ∈ (traceCall cfg (norm s) ev).2) (hc : c.event = "call") :
-    captureAttaches e.kind = true ∧ captureAttaches "line" = false := by
-  refine ⟨?_, by decide⟩
+    captureAttaches e.kind = true ∧ ∀ k, captureAttaches k = true ↔ k = "exception" ∨ k = "return" := by
+  refine ⟨?_, fun k => by simp [captureAttaches]⟩
   rcases c15_capture_kind cfg s ev c e h hc with hk | hk <;> rw [hk] <;> decide
 
 /-- tripwire: **which actions defer work** — the model's `Action.hasCallback` is the translated table: a span action attaches a
@@ -644,6 +648,82 @@ theorem c15_has_callback_table :
   | none => simp [isDeferred]
   | some x => simp [isDeferred, deferredStages]
 
+/-- the result class an action attaches when it runs (a span action: when a span was created) -/
+def resultClassOf : Kind → Option String
+  | .span => some attachedBySpan
+  | .capture => some (attachedBySnapshot true)
+  | .snapshot => some (attachedBySnapshot false)
+  | .log => some attachedByLog
+  | .metric => attachedByMetric
+
+/-- the results attached to the trigger context by the actions that ran, in order -/
+def resultsOf (fired : List Action) : List (Action × String) :=
+  fired.filterMap (fun a => (resultClassOf a.kind).map (fun c => (a, c)))
+
+/-- `result.process(ctx)` by the translated table (no result fails) -/
+def procOf (r : Action × String) : Except Py.Exn (Option Action) :=
+  .ok (if resultHasCallback r.2 then some r.1 else none)
+
+/-- model lemma: **`__exit__` composed with the table is the model's filter** — running the translated `TriggerContext.__exit__` over the
+    results the fired actions attach (by the translated "which result" constants), each processed by the translated
+    "hands back a callback" table, registers exactly `fired.filter Action.hasCallback`, in order — the list
+    `Callbacks.stepWith` puts into the new context.  (`resultClassOf` / `procOf` are hand-written glue between the
+    translated pieces: one result per action — a snapshot action with `log_msg` also attaches a `LogActionResult`,
+    which hands back nothing.) -/
+theorem c15_exit_composes (fired : List Action) :
+    contextExit procOf (resultsOf fired) = (fired.filter Action.hasCallback, false) := by
+  have hcb : ∀ (a : Action) (c : String) (rs : List (Action × String)), resultHasCallback c = true →
+      contextExit procOf ((a, c) :: rs) = (a :: (contextExit procOf rs).1, (contextExit procOf rs).2) := by
+    intro a c rs h; simp [contextExit, procOf, h]
+  have hno : ∀ (a : Action) (c : String) (rs : List (Action × String)), resultHasCallback c = false →
+      contextExit procOf ((a, c) :: rs) = contextExit procOf rs := by
+    intro a c rs h; simp [contextExit, procOf, h]
+  induction fired with
+  | nil => rfl
+  | cons a rest ih =>
+    obtain ⟨tp, kind⟩ := a
+    cases kind with
+    | span =>
+      rw [show resultsOf (⟨tp, .span⟩ :: rest) = (⟨tp, .span⟩, attachedBySpan) :: resultsOf rest from rfl,
+        hcb _ _ _ rfl, ih]; rfl
+    | capture =>
+      rw [show resultsOf (⟨tp, .capture⟩ :: rest) = (⟨tp, .capture⟩, attachedBySnapshot true) :: resultsOf rest from rfl,
+        hcb _ _ _ rfl, ih]; rfl
+    | snapshot =>
+      rw [show resultsOf (⟨tp, .snapshot⟩ :: rest) = (⟨tp, .snapshot⟩, attachedBySnapshot false) :: resultsOf rest
+        from rfl, hno _ _ _ rfl, ih]; rfl
+    | log =>
+      rw [show resultsOf (⟨tp, .log⟩ :: rest) = (⟨tp, .log⟩, attachedByLog) :: resultsOf rest from rfl,
+        hno _ _ _ rfl, ih]; rfl
+    | metric =>
+      rw [show resultsOf (⟨tp, .metric⟩ :: rest) = resultsOf rest from rfl, ih]; rfl
+
+/-- **the callbacks of a pushed context are what `__exit__` registered** — a context pushed by an event carries exactly
+    the callbacks the translated `__exit__` registers for the actions that ran at that event (`c15_exit_composes`), and
+    its opener is that event: for every configuration, stack and event. -/
+theorem c15_registered_callbacks (cfg : List Trig) (s : List Ctx) (ev : Event) (c : Ctx)
+    (h : Eff.opened c ∈ (traceCall cfg (norm s) ev).2) :
+    c.cbs = (contextExit procOf (resultsOf (firedAt (cfg.length : Int) (actionsFor cfg) ev))).1 ∧ c.opener = ev := by
+  rw [c15_exit_composes]
+  rw [traceCall, stepWith_norm, sstep_eq] at h
+  have hpc : Eff.opened c ∉ (pcPhase s ev).2 := by
+    unfold pcPhase
+    cases s with
+    | nil => simp
+    | cons t r => by_cases hk : (isCbKind ev.kind && atLoc t ev) = true <;> simp [hk]
+  by_cases hcb : cbsAt (cfg.length : Int) (actionsFor cfg) ev = []
+  · simp only [hcb, if_true, List.mem_append, List.mem_map] at h
+    rcases h with h | ⟨_, _, h⟩
+    · exact absurd h hpc
+    · cases h
+  · simp only [hcb, if_false, List.mem_append, List.mem_map, List.mem_singleton] at h
+    rcases h with (h | ⟨_, _, h⟩) | h
+    · exact absurd h hpc
+    · cases h
+    · simp only [Eff.opened.injEq] at h
+      subst h
+      exact ⟨rfl, rfl⟩
+
 end DeferredWork
 
 /-! ### the per-thread store: `deep.thread_local.ThreadLocal`, translated method by method -/
@@ -652,18 +732,23 @@ section ThreadLocalStore
 open TLocal Extracted.ThreadLocal HandlerTL
 
 /-- **one cell per thread** — the translated methods against a one-cell specification, for every provider (stateful:
-    `dp k` = what its k-th call returns), every call counter and every slot (`none` = no attribute, `some none` = the
-    attribute holds `None`): `get` returns a stored non-`None` value without calling the provider, otherwise calls the
-    provider exactly once, stores what it returned and returns it; `set` stores; `clear` removes (also when nothing is
-    there); `is_set` reads; the `value` property is `get` / `set`.  In particular **no method raises** (every result is
-    `some`): the `del` in `clear` is guarded. -/
-theorem c15_tl_cell {α : Type} (dp : Nat → Option α) (c : Nat) (s : Slot α) (v : Option α) :
-    tlGet dp c s = some (match s with
-      | some (some x) => (s, c, some x)
-      | _ => (some (dp c), c + 1, dp c)) ∧
-    tlSet dp v c s = some (some v, c, ()) ∧
-    tlClear dp c s = some (none, c, ()) ∧
-    tlIsSet dp c s = some (s, c, s.isSome) ∧
+    `dp k` = what its k-th call does — `some v`: returns `v`, `none`: RAISES), every call counter and every slot
+    (`none` = no attribute, `some none` = the attribute holds `None`); a result is (slot, counter, `some r` = returns
+    `r` / `none` = an exception leaves the method).  `get` returns a stored non-`None` value without calling the
+    provider; otherwise it calls the provider exactly once and either stores what it returned and returns it, or — the
+    provider raised — lets that exception out with the slot as it was (still unset: nothing half-stored; `get` does
+    not catch it).  `set` stores; `clear` removes (also when nothing is there); `is_set` reads; the `value` property is
+    `get` / `set`.  In particular `set`, `clear`, `is_set` never raise (the `del` in `clear` is guarded) and `get` /
+    `value` raise only what the provider raises. -/
+theorem c15_tl_cell {α : Type} (dp : Nat → Option (Option α)) (c : Nat) (s : Slot α) (v : Option α) :
+    tlGet dp c s = (match s with
+      | some (some x) => (s, c, some (some x))
+      | _ => match dp c with
+        | some d => (some d, c + 1, some d)
+        | none => (s, c + 1, none)) ∧
+    tlSet dp v c s = (some v, c, some ()) ∧
+    tlClear dp c s = (none, c, some ()) ∧
+    tlIsSet dp c s = (s, c, some s.isSome) ∧
     tlValueGet dp c s = tlGet dp c s ∧
     tlValueSet dp v c s = tlSet dp v c s :=
   ⟨get_spec dp c s, set_spec dp v c s, clear_spec dp c s, isSet_spec dp c s, valueGet_spec dp c s,
@@ -672,82 +757,90 @@ theorem c15_tl_cell {α : Type} (dp : Nat → Option α) (c : Nat) (s : Slot α)
 /-- **`get()` hands out the stored object** — whatever the slot was, after `tl.get().<mutate>` (the handler's
     `self._callbacks.get().append(ctx)`) with a provider that does not return `None`, the next `get` returns the
     mutated value and does not call the provider again: nothing pushed is lost, no second default is created. -/
-theorem c15_tl_update_visible {α : Type} [DecidableEq α] (dp : Nat → Option α) (hd : ∀ k, dp k ≠ none) (c : Nat)
-    (s : Slot α) (f : α → α) :
+theorem c15_tl_update_visible {α : Type} [DecidableEq α] (dp : Nat → Option (Option α))
+    (hd : ∀ k, ∃ d, dp k = some (some d)) (c : Nat) (s : Slot α) (f : α → α) :
     ∃ v, (opStep dp c s .get).2.2 = .val (some v) ∧
       (opStep dp c s (.update f)).2.2 = .unit ∧
       opStep dp (opStep dp c s (.update f)).2.1 (opStep dp c s (.update f)).1 .get =
         (some (some (f v)), (opStep dp c s (.update f)).2.1, .val (some (f v))) := by
   rw [opStep_get, opStep_update]
+  obtain ⟨d, hdc⟩ := hd c
   cases s with
-  | none =>
-    cases h : dp c with
-    | none => exact absurd h (hd c)
-    | some d => exact ⟨d, rfl, rfl, by rw [opStep_get]⟩
+  | none => exact ⟨d, by simp [hdc], by simp [hdc], by simp [hdc, opStep_get]⟩
   | some w =>
     cases w with
-    | none =>
-      cases h : dp c with
-      | none => exact absurd h (hd c)
-      | some d => exact ⟨d, rfl, rfl, by rw [opStep_get]⟩
+    | none => exact ⟨d, by simp [hdc], by simp [hdc], by simp [hdc, opStep_get]⟩
     | some x => exact ⟨x, rfl, rfl, by rw [opStep_get]⟩
 
 /-- a stored `None` counts as "set" for `is_set` but as "nothing there" for `get`, which then calls the provider and
     overwrites it (the code as it is; the handler never stores `None`). -/
 theorem c15_tl_none_value_witness :
-    (opStep (fun k => some (10 + k)) 0 (some none) .isSet).2.2 = .flag true ∧
-    opStep (fun k => some (10 + k)) 0 (some none) .get = (some (some 10), 1, .val (some 10)) ∧
-    opStep (fun k => some (10 + k)) 1 (some (some 10)) .get = (some (some 10), 1, .val (some 10)) ∧
-    (opStep (fun _ => (none : Option Nat)) 0 none (.update (· + 1))).2.2 = .raised := by decide
+    (opStep (fun k => some (some (10 + k))) 0 (some none) .isSet).2.2 = .flag true ∧
+    opStep (fun k => some (some (10 + k))) 0 (some none) .get = (some (some 10), 1, .val (some 10)) ∧
+    opStep (fun k => some (some (10 + k))) 1 (some (some 10)) .get = (some (some 10), 1, .val (some 10)) ∧
+    (opStep (fun _ => some (none : Option Nat)) 0 none (.update (· + 1))).2.2 = .raised := by decide
+
+/-- a provider that raises at its first call and returns 2 at its second (audit probe P4): the first `get` lets the
+    exception out and leaves the slot unset (`is_set` stays `False`), the next `get` calls the provider again and
+    stores / returns 2. -/
+theorem c15_tl_raising_provider_witness :
+    opStep (fun k => if k = 0 then none else some (some (k + 1))) 0 (none : Slot Nat) .get = (none, 1, .raised) ∧
+    (opStep (fun k => if k = 0 then none else some (some (k + 1))) 1 (none : Slot Nat) .isSet).2.2 = .flag false ∧
+    opStep (fun k => if k = 0 then none else some (some (k + 1))) 1 (none : Slot Nat) .get
+      = (some (some 2), 2, .val (some 2)) := by decide
 
 /-- model lemma: **frame** — an operation of thread `u` changes no slot with another key (for `threading.local`, `key = id`:
     no other thread's slot); by construction of the machine of all threads. -/
-theorem c15_tl_frame {κ α : Type} [DecidableEq κ] [DecidableEq α] (key : Thr → κ) (dp : Nat → Option α)
+theorem c15_tl_frame {κ α : Type} [DecidableEq κ] [DecidableEq α] (key : Thr → κ) (dp : Nat → Option (Option α))
     (S : St κ α) (u : Thr) (op : Op α) (k : κ) (h : k ≠ key u) :
     (stepK key dp S (u, op)).1.store k = S.store k :=
   stepK_frame key dp S u op k h
 
-/-- **every schedule** — for every interleaving `gs` of the operations of any number of threads on one `ThreadLocal`
+/-- model lemma: **every schedule** (true by construction of the machine `stepK`, which gives each operation to the slot of
+    its thread: the per-thread-ness is CPython's `threading.local`, trusted, and checked on real threads by the `tl`
+    stream — what the lemma adds is that the translated methods keep no other state) — for every interleaving `gs` of the operations of any number of threads on one `ThreadLocal`
     (store keyed by the thread object, provider returning a fixed value as `lambda: deque()` / `lambda: None` do),
     from every store: the slot of thread `t` afterwards and the results of `t`'s operations (what its `get` / `is_set`
     returned) are those of `t` running alone on its own operations — no thread sees or loses anything through
     another thread's operations. -/
 theorem c15_tl_interleaved {α : Type} [DecidableEq α] (d : Option α) (gs : List (Thr × Op α)) (S : St Thr α)
     (t : Thr) :
-    ((runT (fun _ => d) S gs).1.store t, projRes t (runT (fun _ => d) S gs).2) =
-      solo (fun _ => d) 0 (S.store t) (projOps t gs) :=
+    ((runT (fun _ => some d) S gs).1.store t, projRes t (runT (fun _ => some d) S gs).2) =
+      solo (fun _ => some d) 0 (S.store t) (projOps t gs) :=
   run_proj d gs S t
 
-/-- **a fresh thread finds nothing** — after any schedule from the empty store, a thread whose key no acting thread
+/-- model lemma: **a fresh thread finds nothing** (by construction of `stepK`, see `c15_tl_interleaved`) — after any schedule from the empty store, a thread whose key no acting thread
     had (for `threading.local`, `key = id`: a thread object that has not acted yet — whatever idents the finished
     threads had) has no value: its `is_set` is `False` and its first `get` is the provider's next value. -/
-theorem c15_tl_fresh_thread {κ α : Type} [DecidableEq κ] [DecidableEq α] (key : Thr → κ) (dp : Nat → Option α)
+theorem c15_tl_fresh_thread {κ α : Type} [DecidableEq κ] [DecidableEq α] (key : Thr → κ) (dp : Nat → Option (Option α))
     (gs : List (Thr × Op α)) (t : Thr) (h : ∀ te ∈ gs, key te.1 ≠ key t) :
     (runK key dp St.empty gs).1.store (key t) = none ∧
     (stepK key dp (runK key dp St.empty gs).1 (t, .isSet)).2 = .flag false ∧
-    (stepK key dp (runK key dp St.empty gs).1 (t, .get)).2 = .val (dp (runK key dp St.empty gs).1.calls) := by
+    (stepK key dp (runK key dp St.empty gs).1 (t, .get)).2 =
+      (match dp (runK key dp St.empty gs).1.calls with | some d => .val d | none => .raised) := by
   have h0 : (runK key dp St.empty gs).1.store (key t) = none := by
     rw [runK_untouched key dp gs St.empty (key t) h]; rfl
   refine ⟨h0, ?_, ?_⟩
   · simp [stepK, opStep, isSet_spec, h0]
-  · simp [stepK, opStep_get, h0]
+  · simp only [stepK, opStep_get, h0]
+    cases dp (runK key dp St.empty gs).1.calls <;> rfl
 
 /-- **the key must be the thread, not its ident** — two thread objects with the same ident (the OS reuses the ident
     of a finished thread): in a store keyed by ident the later thread finds the value the earlier one left
     (`is_set` true, `get` returns it: the class before 0ec78d1); in the store keyed by the thread object it finds
     nothing. -/
 theorem c15_tl_ident_keyed_inherits_witness :
-    (stepK (fun _ => (7 : Nat)) (fun _ => (none : Option Nat))
-      (runK (fun _ => (7 : Nat)) (fun _ => none) St.empty [(0, .set (some 5))]).1 (1, .isSet)).2 = .flag true ∧
-    (stepK (fun _ => (7 : Nat)) (fun _ => (none : Option Nat))
-      (runK (fun _ => (7 : Nat)) (fun _ => none) St.empty [(0, .set (some 5))]).1 (1, .get)).2 = .val (some 5) ∧
-    (stepT (fun _ => (none : Option Nat))
-      (runT (fun _ => none) St.empty [(0, .set (some 5))]).1 (1, .isSet)).2 = .flag false := by decide
+    (stepK (fun _ => (7 : Nat)) (fun _ => some (none : Option Nat))
+      (runK (fun _ => (7 : Nat)) (fun _ => some none) St.empty [(0, .set (some 5))]).1 (1, .isSet)).2 = .flag true ∧
+    (stepK (fun _ => (7 : Nat)) (fun _ => some (none : Option Nat))
+      (runK (fun _ => (7 : Nat)) (fun _ => some none) St.empty [(0, .set (some 5))]).1 (1, .get)).2 = .val (some 5) ∧
+    (stepT (fun _ => some (none : Option Nat))
+      (runT (fun _ => some none) St.empty [(0, .set (some 5))]).1 (1, .isSet)).2 = .flag false := by decide
 
 /-- a store keyed by anything injective on the threads (thread objects; idents as long as none is reused) gives every
     thread the same results as the store keyed by the thread object, under every schedule and provider. -/
 theorem c15_tl_key_injective {κ α : Type} [DecidableEq κ] [DecidableEq α] (key : Thr → κ)
-    (hinj : ∀ a b, key a = key b → a = b) (dp : Nat → Option α) (gs : List (Thr × Op α)) :
+    (hinj : ∀ a b, key a = key b → a = b) (dp : Nat → Option (Option α)) (gs : List (Thr × Op α)) :
     (runK key dp St.empty gs).2 = (runT dp St.empty gs).2 ∧
     ∀ t, (runK key dp St.empty gs).1.store (key t) = (runT dp St.empty gs).1.store t :=
   runK_injective key hinj dp gs St.empty St.empty (fun _ => rfl) rfl
@@ -758,16 +851,19 @@ theorem c15_tl_key_injective {κ α : Type} [DecidableEq κ] [DecidableEq α] (k
     right end of the deque); `self._callbacks.clear()` leaves it unset — the expressions `Callbacks.stepWith` and the
     translated `__process_call_backs` use. -/
 theorem c15_slot_refines_thread_local (c : Nat) (slot : Option (List Ctx)) (x : Ctx) :
-    (opStep (fun _ => some []) c (embSlot slot) .isSet).2.2 = .flag slot.isSome ∧
-    (opStep (fun _ => some []) c (embSlot slot) .isSet).1 = embSlot slot ∧
-    (opStep (fun _ => some []) c (embSlot slot) .valueGet).2.2 = .val (some (slot.getD [])) ∧
-    (opStep (fun _ => some []) c (embSlot slot) .valueGet).1 = embSlot (some (slot.getD [])) ∧
-    (opStep (fun _ => some []) c (embSlot slot) (.update (x :: ·))).1 = embSlot (some (x :: slot.getD [])) ∧
-    (opStep (fun _ => some []) c (embSlot slot) .clear).1 = embSlot none := by
+    (opStep dq c (embSlot slot) .isSet).2.2 = .flag slot.isSome ∧
+    (opStep dq c (embSlot slot) .isSet).1 = embSlot slot ∧
+    (opStep dq c (embSlot slot) .valueGet).2.2 = .val (some (slot.getD [])) ∧
+    (opStep dq c (embSlot slot) .valueGet).1 = embSlot (some (slot.getD [])) ∧
+    (opStep dq c (embSlot slot) (.update (x :: ·))).1 = embSlot (some (x :: slot.getD [])) ∧
+    (opStep dq c (embSlot slot) .clear).1 = embSlot none := by
   cases slot <;>
-    simp [opStep, isSet_spec, valueGet_spec, get_spec, clear_spec, embSlot]
+    simp [opStep, isSet_spec, valueGet_spec, get_spec, clear_spec, embSlot, dq]
 
-/-- **the handler over the translated per-thread store, one event** — `trace_call` written against the `ThreadLocal`
+/-- model lemma: **the handler over the translated per-thread store, one event** (a refinement between two HAND-WRITTEN
+    machines: `stepTL` is `stepWith` re-written by hand in source order over the store API, only the four store methods
+    inside it are translated; the code reads `self._callbacks.value` several times per event, `stepTL` once — the same
+    because `is_set` implies a non-`None` value for the handler) — `trace_call` written against the `ThreadLocal`
     API in the order of the source text (`HandlerTL.stepTL`: `is_set`, `value` + in-place pop / append, `clear()`,
     `get().append(..)`, each one the translated method) does to the calling thread's `ThreadLocal` slot and produces as
     effects exactly what `Callbacks.stepWith` — the handler every theorem above is about — does with its
@@ -778,7 +874,7 @@ theorem c15_handler_over_thread_local_step (ncfg : Int) (acts : Event → List A
     (stepTL ncfg acts calls (embSlot slot) ev).2 = (stepWith ncfg acts slot ev).2 :=
   stepTL_refines ncfg acts calls slot ev
 
-/-- **the handler over the translated per-thread store, all threads** — for every configuration and every interleaving
+/-- model lemma: **the handler over the translated per-thread store, all threads** (model-to-model, see the step lemma) — for every configuration and every interleaving
     of the events of any number of threads, the machine in which all threads share ONE `ThreadLocal` (the store keyed by
     the thread object, every access a translated method) has the effects of `Trigger.runG`, and every thread's
     `ThreadLocal` slot is the embedding of its `runG` slot: `c15_interleaved`, `c15_interleaved_complete`,
@@ -800,12 +896,23 @@ theorem c15_thread_local_released (cfg : List Trig) (hnamed : AllNamed cfg) (gs 
   · rw [h, (c15_nothing_inherited cfg hnamed gs).1 t forest k hp hc hs]; rfl
   · rw [h, (c15_nothing_inherited cfg hnamed gs).2 t hp]; rfl
 
-/-- tripwire: the store of a `ThreadLocal` is created by `threading.local()` in `__init__` (one per instance) -/
+/-- `c15_nothing_inherited` / `c15_thread_local_released` under the weaker recursion hypothesis `NoClashW`. -/
+theorem c15_nothing_inherited_weak (cfg : List Trig) (hnamed : AllNamed cfg) (gs : List (Tid × Event)) (t : Tid)
+    (forest : List Inv) (k : Nat) (hp : proj t gs = flattenForest forest k)
+    (hc : forestNoClashW (opens cfg) forest k) (hs : forestNoStack (opens cfg) forest k) :
+    (runG cfg Store.empty gs).1 t = none ∧ (runGTL cfg St.empty gs).1.store t = none := by
+  have h1 := (c15_interleaved_complete_weak cfg hnamed gs t forest k hp hc hs).nothing_pending
+  refine ⟨h1, ?_⟩
+  rw [(c15_handler_over_thread_local cfg gs).2 t, h1]; rfl
+
+/-- tripwire: the store of a `ThreadLocal` is created by `threading.local()` in `__init__` (one per instance).  (`rfl` on a constant
+    the extractor prints: the real tripwire is the extractor's shape check of `__init__` — it refuses to translate
+    otherwise; this line only makes the dependency visible in the audit.) -/
 theorem c15_tl_store_factory : storeFactory = "threading.local" := rfl
 
 /-- non-vacuity: three threads (idents irrelevant) interleaved on one instance with the handler's provider -/
 example :
-    (runT (fun _ => some ([] : List Nat)) St.empty
+    (runT (fun _ => some (some ([] : List Nat))) St.empty
       [(0, .isSet), (0, .update (1 :: ·)), (1, .isSet), (1, .update (2 :: ·)), (0, .update (3 :: ·)), (1, .clear),
        (2, .get), (0, .valueGet), (1, .isSet)]).2 =
       [(0, .flag false), (0, .unit), (1, .flag false), (1, .unit), (0, .unit), (1, .unit), (2, .val (some [])),
